@@ -202,6 +202,8 @@ class Screen(BaseScreen, RealTerminal):
 
         if self._old_signal_keys:
             self.tty_signal_keys(*self._old_signal_keys)
+            # back to what _start() found: the next session takes its own snapshot
+            self._signal_keys_set = False
 
         super()._stop()
 
